@@ -79,6 +79,7 @@ def candidates():
     p4 = [0.9, 0.2, 0.6, 0.4]
     C = [
         ("2d-float-pair", lambda: ((t([[0.9, 0.5], [0.3, 0.5], [0.2, 0.1], [0.7, 0.4]]), t([[0.5, 0.8], [0.2, 0.8], [0.1, 0.3], [0.6, 0.6]])), {})),
+        ("3col-float-pair", lambda: ((t([[0.9, 0.5, 0.1], [0.3, 0.5, 0.2]]), t([[0.5, 0.8, 0.3], [0.2, 0.8, 0.6]])), {})),
         ("2task-prob-binary", lambda: ((t([p4, [0.3, 0.8, 0.1, 0.5]]), t([[1.0, 0.0, 1.0, 0.0], [0.0, 1.0, 0.0, 1.0]])), {})),
         ("prob-binary", lambda: ((t(p4), t([1.0, 0.0, 1.0, 0.0])), {})),
         ("prob-zero-target", lambda: ((t(p4), t([0.0, 0.0, 0.0, 0.0])), {})),
@@ -329,6 +330,31 @@ def perturbations(a, k):
 
 def probe_atomic(name, cls):
     n = 0
+    # (a) a VALID call of another width after a first update: if it raises, nothing may have changed
+    for kw in configs(name):
+        wi = working_inputs(cls, kw, limit=4)
+        for c1, mk1 in wi:
+            for c2, mk2 in wi:
+                if c1 == c2:
+                    continue
+                m = cls(**kw)
+                a, k = mk1()
+                m.update(*a, **k)
+                before = snapshot(m)
+                a2, k2 = mk2()
+                try:
+                    m.update(*a2, **k2)
+                    raised = None
+                except Exception as e:  # noqa: BLE001
+                    raised = type(e).__name__
+                n += 1
+                d = diff(before, snapshot(m)) if raised else []
+                if d:
+                    after = snapshot(m)
+                    return n, {"check": "a raising update() leaves the state unchanged", "class": name, "cfg": cfg_lit(kw),
+                               "history": [f"update({c1})", f"update({c2}) raises {raised}"], "first": lit([a, k]), "second": lit([a2, k2]),
+                               "attributes_changed": d, "before": lit({f: before.get(f) for f in d}), "after": lit({f: after.get(f) for f in d})}
+    # (b) malformed variants of a valid call
     for kw in configs(name):
         for cname, mk in working_inputs(cls, kw, limit=2):
             a, k = mk()
